@@ -9,10 +9,12 @@
 (* gives a step of the same shape (same next state kind, same collector         *)
 (* lengths, same kinds of events).  A character the recogniser treated          *)
 (* specially but the model's alphabet did not contain would violate it.         *)
-EXTENDS Recognizer, TLC
+EXTENDS Recognizer, Json, TLC
 
-VARIABLES r, c, utf8
-vars == <<r, c, utf8>>
+CONSTANTS EmitVectors
+
+VARIABLES pfx, r, c, utf8      \* pfx: an input string that puts the recogniser into state r
+vars == <<pfx, r, c, utf8>>
 
 \* the characters MCRec's alphabet contains individually
 Individually ==
@@ -28,13 +30,15 @@ CRep(x) ==
   ELSE IF x < 127 THEN 120                      \* printable ASCII without a function in the grammar
   ELSE 233                                      \* C1 without a function, Latin-1 and everything above
 
-States ==
-  { Ground, InState("esc"), InState("esc#"), InState("esc%"), InState("csi$"), InState("osc"),
-    [InState("escp") EXCEPT !.which = 40], [InState("escp") EXCEPT !.which = 41] }
-  \cup { [InState("csi") EXCEPT !.params = ps, !.cur = cu, !.priv = pv] :
-           ps \in {<<>>, <<5>>, <<5, 0>>}, cu \in {-1, 0, 7, 999, 9999}, pv \in BOOLEAN }
-  \cup { [InState(st) EXCEPT !.code = cd, !.payload = pl] :
-           st \in {"oscp", "oscesc"}, cd \in {48, 49, 50, 51, 120}, pl \in {<<>>, <<59>>, <<59, 120>>, <<120>>} }
+\* a representative of every recogniser state, each given by an input string that reaches it
+StatePrefixes ==
+  { <<>>, <<27>>, <<27, 35>>, <<27, 37>>, <<27, 91, 36>>, <<27, 93>>, <<157>>, <<27, 40>>, <<27, 41>> }
+  \cup { intro \o body : intro \in {<<27, 91>>, <<155>>},
+                         body \in { <<>>, <<53>>, <<53, 59>>, <<63>>, <<63, 53, 59, 48>>, <<57, 57, 57, 57, 57>>, <<53, 59, 48, 59>>, <<48>>, <<32, 55>> } }
+  \cup { <<27, 93, cd>> \o pay \o esc : cd \in {48, 49, 50, 51, 120}, pay \in {<<>>, <<59>>, <<59, 120>>, <<120>>}, esc \in {<<>>, <<27>>} }
+\* the characters swept: all of 0..767 and a few members of classes that only exist further up
+\* (decimal digits and numerics of other scripts, CJK, emoji)
+Chars == (0..767) \cup {1635, 2406, 8544, 12295, 65301, 19968, 128512, 65533}
 
 \* what must not depend on the particular member of a class
 Shape(n) ==
@@ -42,7 +46,11 @@ Shape(n) ==
    npay |-> Len(n.r.payload),
    evs |-> [i \in 1..Len(n.evs) |-> <<n.evs[i].op, Len(n.evs[i].p), Len(n.evs[i].s), n.evs[i].pr>>]]
 
-Init == r \in States /\ c \in 0..767 /\ utf8 \in BOOLEAN
+Init ==
+  /\ utf8 \in BOOLEAN
+  /\ pfx \in StatePrefixes
+  /\ r = RFeed(Ground, pfx, utf8).r
+  /\ c \in Chars
 Next == UNCHANGED vars
 Spec == Init /\ [][Next]_vars
 
@@ -54,4 +62,8 @@ Accounted ==
   /\ asText <= 1
   /\ (asText = 1 => n.evs[Len(n.evs)].s = <<c>>)
   /\ (r.st = "ground" /\ c \notin {27, 155, 157} \cup Basic => asText = 1)
+
+\* one vector per (state, character): the prefix, the character, and a tail that reveals the state reached
+\* (`x` is drawn unless still inside a sequence; BEL ends an OSC string) - the class-member sweep on the real code
+Emit == EmitVectors => PrintT(<<"VEC", ToJson([s |-> pfx \o <<c>> \o <<120, 7, 121>>, utf8 |-> utf8])>>)
 =============================================================================
